@@ -664,6 +664,61 @@ def request_mode(mode, status, idsel, bodysel, with_noise):
     return "ok"
 
 
+def after_ended(end, idsel, status, second):
+    """an EARLIER request with id X ended by (0) a 200 body, (1) 202 + event, (2) another status, (3) a POST that
+    raised, (4) 202 and silence (synthesised timeout); afterwards the server itself uses the id X on the event stream -
+    (0) a server request (ids of the two directions are independent), (1) a duplicate response - followed by a
+    notification.  The server request must be delivered once, in order; nothing is swallowed by the dead request"""
+    rid = pick_id(idsel)
+    ev_resp = event_for(rid, {"result": {"ok": 1}})
+    srv_req = "event: message\ndata: " + _json.dumps({"jsonrpc": "2.0", "id": rid, "method": "ping"}) + "\n\n"
+    dup = event_for(rid, {"result": {"dup": 1}})
+    note = "event: message\ndata: " + NOTE1 + "\n\n"
+    if end == 0:
+        plan, chunks = {"status": 200, "body": _json.dumps({"jsonrpc": "2.0", "id": rid, "result": {"ok": 1}}).encode()}, []
+    elif end == 1:
+        plan, chunks = {"status": 202}, [ev_resp]
+    elif end == 2:
+        plan, chunks = {"status": status, "body": b"<html>"}, []
+    elif end == 3:
+        plan, chunks = {"raise": _httpx.ConnectError("boom")}, []
+    else:
+        plan, chunks = {"status": 202}, []
+    later = [srv_req if second == 0 else dup, note]
+    _reset(chunks, "silent")
+    W.plan = [plan]
+    t = _transport()
+    t._incoming_send = Rec()
+    t._message_url = "http://srv/messages/?session_id=s"
+    t._send_client = FakeClient()
+    t._sse_response = _SSEResponse(200)
+    W.sse_task = STask(t._process_sse_stream())
+    JM = importlib.import_module("chuk_mcp.protocol.messages.json_rpc_message")
+    _drive_top(t._send_message_via_http(JM.JSONRPCMessage(jsonrpc="2.0", id=rid, method="tools/list")))
+    while W.deliver_next():
+        pass
+    n_first = len(t._incoming_send.items)
+    if n_first != 1:
+        return "earlier-request:not-exactly-one-terminal-message:%d" % n_first
+    W.chunks += later
+    while W.deliver_next():
+        pass
+    got = [dump(m) for m in t._incoming_send.items[1:]]
+    if second == 0:
+        if len(got) != 2 or got[0].get("method") != "ping" or not same_json(got[0].get("id"), rid):
+            return "server-request-reusing-the-id-of-an-ended-request-not-delivered:%d" % len(got)
+        if got[1].get("method") != "notifications/message":
+            return "order-changed-after-an-ended-request"
+    else:
+        # a duplicate response for a request that has ended: delivering it or dropping it are both acceptable, the
+        # notification after it must arrive
+        if not got or got[-1].get("method") != "notifications/message":
+            return "notification-after-a-duplicate-response-lost"
+    if t._pending_requests:
+        return "pending-request-table-not-cleaned"
+    return "ok"
+
+
 def notification_post(status, raises):
     """a notification is posted once and produces nothing on the read stream"""
     _reset([], "silent")
